@@ -1,4 +1,4 @@
 From Coq Require Import Extraction ExtrOcamlBasic ExtrOcamlString.
 From Oras Require Import Base.Prelude Model.NetURL Model.Reference Model.RefOps.
 Extraction Language OCaml.
-Extraction "xc20.ml" parse_verdict repo_parse_verdict format url_manifest url_blob url_referrers url_taglist url_upload url_base url_catalog url_repo_base op_requests_verdict valid_repository valid_tag valid_digest url_split go_registry_verdict query_escape query_unescape url_referrers_at url_mount.
+Extraction "xc20.ml" parse_verdict repo_parse_verdict format url_manifest url_blob url_referrers url_taglist url_upload url_base url_catalog url_repo_base op_requests_verdict valid_repository valid_tag valid_digest url_split go_registry_verdict query_escape query_unescape url_referrers_at url_mount desc_op_requests parse_query.
